@@ -6,7 +6,9 @@ import CwMt.Proofs.StakingExample
   Model: CwMt/Model/Staking.lean (`Staking.step`, `Op`, `Chain`), bank CwMt/Model/Bank.lean.
   `Inv cfg c` is the invariant of the machine: (I1) every staker of a validator has a record, (I2) every record's
   owner is in the staker set, (I3) the unbonding queue is sorted by payout time, (I4) the pool balance covers all
-  validator totals plus all queued amounts; side conditions: commissions ≤ 1, no reward calculation in the future
+  validator totals plus all queued amounts, (I5) a validator's total is at least the whole tokens of the sum of the shares
+  of its records (after a slash it is exactly that; delegate / undelegate / redelegate move both sides by the same whole
+  amount; block updates only drop records that show 0); side conditions: commissions ≤ 1, no reward calculation in the future
   (monotone time), the pool account itself never undelegated, stored balances normalised.
   `Op.okFor cfg op` = "nobody signs as the pool account". `stakeOf s d v` is the delegation's fractional value
   (0 without record); the Delegation query shows `(stakeOf s d v).floor`.
@@ -49,6 +51,18 @@ theorem delegate_exact {cfg : Cfg} {c c' : Chain} {a : Addr} {v : String} {coin 
     c'.st.queue = c.st.queue ∧ c'.st.withdraw = c.st.withdraw := by
   have e := delegate_effect hwf h
   exact ⟨e.2.2.2.1, e.2.2.2.2.1, delegate_shown hwf h, e.2.2.2.2.2.1, e.2.2.2.2.2.2.2.2.1, e.2.2.2.2.2.2.2.2.2.1⟩
+
+/-- I5 at work: a delegation's whole tokens never exceed the validator total, so undelegating any amount up to the
+SHOWN delegation from a known validator succeeds (before the fix of `slash` it could fail with an overflow error). -/
+theorem undelegate_shown_succeeds {cfg : Cfg} {c : Chain} {a : Addr} {v : String} {coin : Coin} {vo : Validator}
+    (hi : Inv cfg c) (hvo : c.st.validator? v = some vo) (hden : coin.denom = c.st.info.bondedDenom)
+    (hnz : coin.amount ≠ 0) (hle : coin.amount ≤ (stakeOf c.st a v).floor) :
+    ∃ c', undelegate c a v coin = .ok c' := Staking.undelegate_shown_succeeds hi hvo hden hnz hle
+
+/-- I5 itself: the whole tokens of any recorded delegation are covered by the validator total. -/
+theorem total_covers_delegation {cfg : Cfg} {c : Chain} (hi : Inv cfg c) {d : Addr} {v : String} {sh : Shares}
+    {vi : ValInfo} (hs : KMap.get? c.st.stakes (d, v) = some sh) (hv : KMap.get? c.st.vinfo v = some vi) :
+    sh.stake.floor ≤ vi.stake := floor_le_total hi.tinv hs hv
 
 /-! ### rejection without effect -/
 
@@ -127,5 +141,9 @@ example : (step exCfg (runAll exCfg exChain d3History).1 (.undelegate "d2" "v1" 
 /-- the payout of the D3 history: d1's single token, halved by the slash, floors to 0; d2 delegated 11 in total -/
 example : Bank.queryBalance (runAll exCfg exChain d3History).1.bank "d1" "TOKEN" = 98 ∧
     Bank.queryBalance (runAll exCfg exChain d3History).1.bank "pool" "TOKEN" = 13 := by decide
+
+/-- the old F1 shape: 3 tokens, two 10 % slashes (share 2.43): the shown 2 tokens can be undelegated -/
+example : (runAll exCfg exChain [.delegate "d1" "v1" ⟨"TOKEN", 3⟩, .slash "v1" ⟨100000000000000000⟩,
+    .slash "v1" ⟨100000000000000000⟩, .undelegate "d1" "v1" ⟨"TOKEN", 2⟩]).2 = [.ok, .ok, .ok, .ok] := by decide
 
 end CwMt.C14
